@@ -1,6 +1,7 @@
 import BSModel.Proofs.EncodingOut
 import BSModel.Proofs.EncodingOutUtf
 import BSModel.Proofs.EncodingOutSub
+import BSModel.Proofs.EncodingOutTree
 /-! # C08 — output in any target encoding is valid, lossless and self-describing
 
 Property theorems only. `pyEncode`/`encodeWith` is `str.encode(codec, errors)`, `encodeImpl`/`prettifyImpl`/`encodeContentsImpl`
@@ -291,49 +292,119 @@ theorem lossless_attr_needs_safe :
 
 /-! ## 4. the declared charset names the encoding used — or is left alone -/
 
-/-- HTML5 style. A `<meta>` with a `charset` attribute — whatever else it carries, an HTML4-style declaration included —
-    gets the placeholder at parse time, and rendering with `eventual_encoding = e` writes `e` there (the empty string for a
-    Python-specific `e`), whatever the old value was. -/
+/-- HTML5 style. A `<meta>` with a `charset` attribute (with a value: `charset is not None`) — whatever else it carries, an
+    HTML4-style declaration included — gets the placeholder at parse time, and rendering with `eventual_encoding = e` writes
+    `e` there (the empty string for a Python-specific `e`), whatever the old value was. -/
 theorem meta_rewritten_charset (attrs : List (PStr × AttrVal)) (old : AttrVal) (e : PStr)
-    (h : lookupAttr (ofS "charset") attrs = some old) :
+    (h : lookupAttr (ofS "charset") attrs = some old) (hv : old ≠ .novalue) :
     (lookupAttr (ofS "charset") (setUpSubstitutions (ofS "meta") attrs)).map (attrValue (some e))
       = some (if isPythonSpecific e then [] else e) := by
   have hne : ofS "charset" ≠ ofS "content" := by decide
-  simp [setUpSubstitutions, lookup_subContentStep _ hne, subCharsetStep, h, lookup_setAttr, attrValue, substituteCharset]
+  simp [setUpSubstitutions, lookup_subContentStep _ hne, subCharsetStep_some attrs old h hv, lookup_setAttr, attrValue,
+    substituteCharset]
 
 /-- … and with `eventual_encoding = None` (`decode()` to str for a str destination) the old value is written back. -/
 theorem meta_untouched_charset (attrs : List (PStr × AttrVal)) (old : AttrVal)
-    (h : lookupAttr (ofS "charset") attrs = some old) :
+    (h : lookupAttr (ofS "charset") attrs = some old) (hv : old ≠ .novalue) :
     (lookupAttr (ofS "charset") (setUpSubstitutions (ofS "meta") attrs)).map (attrValue none) = some old.str := by
   have hne : ofS "charset" ≠ ofS "content" := by decide
-  simp [setUpSubstitutions, lookup_subContentStep _ hne, subCharsetStep, h, lookup_setAttr, attrValue]
+  simp [setUpSubstitutions, lookup_subContentStep _ hne, subCharsetStep_some attrs old h hv, lookup_setAttr, attrValue]
 
 /-- `eventual_encoding = None` leaves *every* attribute value as parsed: placeholders render as their original text. -/
 theorem meta_untouched (v : AttrVal) : attrValue none v = v.str := by
   cases v <;> rfl
 
-/-- HTML4 style: `content` becomes a placeholder whenever `http-equiv` is `content-type` in any letter case — whether or
-    not the same tag also has a `charset` attribute (the repaired `if … if …`; 4.13.0's `elif` skipped this branch then, see
-    `meta_both_styles_old_stale`). -/
+/-- … at the level of whole trees, for every entry point that renders with `eventual_encoding=None` and every
+    indentation: the rendering is exactly that of the tree in which no placeholder was ever installed (`plainN` turns every
+    placeholder back into a plain string) — nothing anywhere in the document is rewritten. -/
+theorem decode_without_encoding_ignores_placeholders (indent : Option Nat) (t : Node) :
+    decodeImpl indent none (plainN t) = decodeImpl indent none t
+    ∧ decodeContentsImpl indent none (plainN t) = decodeContentsImpl indent none t := by
+  constructor
+  · cases indent with
+    | none => exact decodeNode_none_plain [] t
+    | some l => exact prettyNode_none_plain [] l t
+  · cases t with
+    | text s => rfl
+    | tag n as ks =>
+      cases indent with
+      | none => simp only [plainN, decodeContentsImpl]; exact decodeKids_none_plain n ks
+      | some l => simp only [plainN, decodeContentsImpl]; exact prettyKids_none_plain n l ks
+
+example : decodeImpl none none (.tag (ofS "head") [] [metaCharset, metaContent])
+    = ofS "<head><meta charset=\"utf8\"/><meta content=\"text/html; charset=utf8\" http-equiv=\"Content-Type\"/></head>" := by
+  decide
+
+/-- `str(tag)`, `tag.decode()`, `tag.prettify()` and `decode_contents()` are NOT "no target encoding": their
+    `eventual_encoding` defaults to `DEFAULT_OUTPUT_ENCODING`, so a declared charset is rewritten to `utf-8` in the str they
+    return (the generated constant is `utf-8` and is not Python-specific). Only an explicit `eventual_encoding=None` leaves
+    the declaration alone. -/
+theorem str_rendering_names_default (attrs : List (PStr × AttrVal)) (old : AttrVal)
+    (h : lookupAttr (ofS "charset") attrs = some old) (hv : old ≠ .novalue) :
+    (lookupAttr (ofS "charset") (setUpSubstitutions (ofS "meta") attrs)).map (attrValue (some defaultOutputEncoding))
+      = some (ofS "utf-8") := by
+  rw [meta_rewritten_charset attrs old _ h hv]
+  decide
+
+example : strImpl metaCharset = ofS "<meta charset=\"utf-8\"/>" := by decide
+example : prettifyStrImpl (.tag (ofS "head") [] [metaContent])
+    = ofS "<head>\n <meta content=\"text/html; charset=utf-8\" http-equiv=\"Content-Type\"/>\n</head>\n" := by decide
+
+/-- `tag.encode()` with its defaults is UTF-8 of `str(tag)`, with no reference at all, for every tree of characters -/
+theorem encode_default_is_utf8 (t : Node) (h : ∀ c ∈ strImpl t, isScalar c = true) :
+    encodeImpl defaultOutputEncoding utf8Codec none t = .bytes (utf8Enc (strImpl t)) := by
+  show pyEncode utf8Codec .xmlcharrefreplace (strImpl t) = _
+  rw [handlers_agree_on_encodable utf8Codec _ h]
+  rfl
+
+/-! ### encoding touches the values only -/
+
+/-- **The markup skeleton is never touched.** For a tree whose tag and attribute names are ASCII, the decoded output of
+    `encode` is the rendering in which `xmlcharrefreplace` has been applied to each text piece and to each quoted attribute
+    value separately (`decodeNodeX`) — `<`, names, `=`, quotes, `>` stand exactly where the str rendering has them. Together
+    with `lossless_text` / `lossless_attr`, which read each such piece back, this is the document-level form of
+    losslessness on the writer's side (re-assembling a tree from the pieces is the parser's business: C09/C15). -/
+theorem encoding_touches_values_only (C : Codec) (hA : C.AsciiOK) (hr : C.RoundTrip) (name : PStr) (t : Node)
+    (hn : asciiNames t = true) (b : Bytes) (hb : encodeImpl name C none t = .bytes b) :
+    C.dec b = some (decodeNodeX C (some name) [] t) := by
+  have := (entry_points_decode C hA hr name none t).1 b hb
+  rw [this]
+  congr 1
+  exact xcr_decodeNode C hA (some name) [] t hn
+
+example : asciiNames demo = true := by decide
+example : decodeNodeX asciiCodec (some (ofS "ascii")) [] demo = ofS "<p title=\"&#9731;&#233;\">a&amp;&#9731;<br/></p>" := by
+  decide +kernel
+
+/-- HTML4 style: `content` (with a value) becomes a placeholder whenever `http-equiv` — a string, or any element of a list
+    value (`get_attribute_list`) — is `content-type` in any letter case, whether or not the same tag also has a `charset`
+    attribute (the repaired `if … if …`; 4.13.0's `elif` skipped this branch then, see `meta_both_styles_old_stale`). -/
 theorem meta_content_placeholder (attrs : List (PStr × AttrVal)) (ct he : AttrVal)
-    (h1 : lookupAttr (ofS "content") attrs = some ct)
-    (h2 : lookupAttr (ofS "http-equiv") attrs = some he) (h3 : asciiLower he.str = ofS "content-type") :
+    (h1 : lookupAttr (ofS "content") attrs = some ct) (hv : ct ≠ .novalue)
+    (h2 : lookupAttr (ofS "http-equiv") attrs = some he) (h3 : isContentType he = true) :
     lookupAttr (ofS "content") (setUpSubstitutions (ofS "meta") attrs) = some (.contentMeta ct.str) := by
   have hc : ofS "content" ≠ ofS "charset" := by decide
   have hh : ofS "http-equiv" ≠ ofS "charset" := by decide
-  simp [setUpSubstitutions, subContentStep, lookup_subCharsetStep _ hc, lookup_subCharsetStep _ hh, h1, h2, h3, lookup_setAttr]
+  have := subContentStep_some (subCharsetStep attrs) ct he (by rw [lookup_subCharsetStep _ hc]; exact h1) hv
+    (by rw [lookup_subCharsetStep _ hh]; exact h2) h3
+  simp [setUpSubstitutions, this, lookup_setAttr]
+
+example : isContentType (.plain (ofS "Content-TYPE")) = true := by decide
+example : isContentType (.list [ofS "refresh", ofS "CONTENT-type"]) = true := by decide
+example : isContentType (.plain (ofS "content-type ")) = false := by decide
 
 /-- A single `<meta>` carrying both declaration styles gets both placeholders, so both are rewritten on output and no
     stale `charset=` is left for a reader's regex to pick up. -/
 theorem meta_both_styles (attrs : List (PStr × AttrVal)) (cs ct he : AttrVal) (e : PStr)
-    (h0 : lookupAttr (ofS "charset") attrs = some cs) (h1 : lookupAttr (ofS "content") attrs = some ct)
-    (h2 : lookupAttr (ofS "http-equiv") attrs = some he) (h3 : asciiLower he.str = ofS "content-type") :
+    (h0 : lookupAttr (ofS "charset") attrs = some cs) (hv0 : cs ≠ .novalue)
+    (h1 : lookupAttr (ofS "content") attrs = some ct) (hv1 : ct ≠ .novalue)
+    (h2 : lookupAttr (ofS "http-equiv") attrs = some he) (h3 : isContentType he = true) :
     (lookupAttr (ofS "charset") (setUpSubstitutions (ofS "meta") attrs)).map (attrValue (some e)) = some (substituteCharset e)
     ∧ (lookupAttr (ofS "content") (setUpSubstitutions (ofS "meta") attrs)).map (attrValue (some e))
         = some (substituteContent e ct.str) := by
   refine ⟨?_, ?_⟩
-  · rw [meta_rewritten_charset attrs cs e h0]; rfl
-  · rw [meta_content_placeholder attrs ct he h1 h2 h3]; rfl
+  · rw [meta_rewritten_charset attrs cs e h0 hv0]; rfl
+  · rw [meta_content_placeholder attrs ct he h1 hv1 h2 h3]; rfl
 
 /-- `<meta charset="utf-8" content="text/html; charset=utf-8" http-equiv="content-type">` -/
 def metaBothAttrs : List (PStr × AttrVal) :=
@@ -358,16 +429,14 @@ theorem setUp_old_agrees (name : PStr) (attrs : List (PStr × AttrVal))
   · rfl
   · have hc : ofS "content" ≠ ofS "charset" := by decide
     have hh : ofS "http-equiv" ≠ ofS "charset" := by decide
-    rcases h with h | h | h
-    · simp [subCharsetStep, h]
-    · cases hcs : lookupAttr (ofS "charset") attrs with
-      | none => simp [subCharsetStep, hcs]
-      | some cs => simp [subContentStep, lookup_subCharsetStep _ hc, h]
-    · cases hcs : lookupAttr (ofS "charset") attrs with
-      | none => simp [subCharsetStep, hcs]
-      | some cs =>
-        simp only [subContentStep, lookup_subCharsetStep _ hc, lookup_subCharsetStep _ hh, h]
-        cases lookupAttr (ofS "content") attrs <;> rfl
+    cases hcs : lookupAttr (ofS "charset") attrs with
+    | none => simp [subCharsetStep_none attrs hcs]
+    | some cs =>
+      simp only
+      rcases h with h | h | h
+      · rw [hcs] at h; cases h
+      · rw [subContentStep_no_content _ (by rw [lookup_subCharsetStep _ hc]; exact h)]
+      · rw [subContentStep_no_equiv _ (by rw [lookup_subCharsetStep _ hh]; exact h)]
 
 /-- nothing but `<meta>` is touched -/
 theorem non_meta_untouched (name : PStr) (attrs : List (PStr × AttrVal)) (h : name ≠ ofS "meta") :
